@@ -114,6 +114,22 @@ fn main() {
     conn::install_panic_hook();
     sim::JUDGE_INTERIM_VERSION.store(prop == "C13", std::sync::atomic::Ordering::Relaxed);
 
+    // Every fourth shard runs like a daemon started with stdin closed: descriptor number 0 is free, so
+    // listeners, accepted sockets, event descriptors and descriptors received over a socket get the number 0
+    // at some point. (A replay file records it, see Report::violation.) Not under Miri.
+    let replay_path = arg(&args, "--replay");
+    let mut fd0_free = shard % 4 == 3 && flavor != "miri" && replay_path.is_none();
+    if let Some(path) = replay_path {
+        if let Ok(text) = std::fs::read_to_string(path) {
+            fd0_free = text.contains("\"descriptor_0_free\": true") || text.contains("\"descriptor_0_free\":true");
+        }
+    }
+    if fd0_free {
+        // SAFETY: the harness never reads standard input.
+        unsafe { libc::close(0) };
+        util::DESCRIPTOR_0_FREE.store(true, std::sync::atomic::Ordering::Relaxed);
+    }
+
     let mut ctx = Ctx {
         prop: prop.clone(),
         tier,
@@ -151,6 +167,9 @@ fn main() {
         std::process::exit(if n > 0 { 1 } else { 0 });
     }
 
+    if fd0_free {
+        ctx.rep.count("shards_run_with_descriptor_0_free");
+    }
     props::run(&mut ctx);
     ctx.rep.add("cases_begun", ctx.case_no);
     if out == "/dev/stdout" {
